@@ -23,6 +23,26 @@ CHECKS = {
         "/ 20 s time budgets as a stand-in for termination, nesting <= 40.",
         "DESIGN.md section 5 C01",
     ),
+    "C02": (
+        "property-based differential testing against an independent "
+        "reference evaluator (typed expression trees rendered with minimal "
+        "parentheses) + exhaustive operator pairs / unary combinations / "
+        "predicate forms",
+        "Random typed expression trees (depth <= 5, big ints, decimals, "
+        "NULL, strings, lists, redundant parentheses, non-boolean "
+        "injections) are evaluated by the interpreter and by a reference "
+        "evaluator written from the statement; value and int/decimal kind "
+        "must agree. Every ordered pair of the 15 binary operators and every "
+        "unary/binary combination is rendered flat (no parentheses) over all "
+        "operand typings the statement defines and compared with the "
+        "prescribed grouping; all 26 `is [not] P` forms x 26 values are "
+        "checked for the negation law. Exhaustive on pairs/forms, sampled "
+        "on trees.",
+        "Trusted: the reference evaluator (vf/model/eval.py) and the "
+        "precedence table of the statement; unspecified operand kinds are "
+        "discarded, decimals compared with tolerance 1e-9.",
+        "DESIGN.md section 5 C02",
+    ),
     "C06": (
         "property-based testing (Hypothesis): equivalence laws, hash "
         "consistency and agreement with a model equality on the ckl.values "
